@@ -143,10 +143,71 @@ def run(ctx, rep):
     check_success_or_halt(fx, rep, allv)
     check_last_frame_return(fx, rep)
     c13.check_final_refund(fx, rep)
+    check_cap_is_last(ctx, rep)
     check_floor(fx, rep)
     check_output(fx, rep)
     check_payments(fx, rep)
     rep.assume('new InstructionResult variants default to the error class (all gas consumed) unless listed in the reference')
+
+
+def check_cap_is_last(ctx, rep):
+    """R3b: the refund cap covers every refund source.  In the refund handlers (mainnet and, in the
+    thorough tier, optimism) every record_refund precedes set_final_refund on every path, and
+    set_final_refund is applied at most once; the transaction driver calls the refund handler after
+    the last frame returned and adds nothing to the counter afterwards (the EIP-7623 floor only
+    clears it)."""
+    from symx import Symx, Budget
+    cfgs = [('default', 'revm::handler::mainnet::post_execution::refund')]
+    if ctx.tier == 'thorough':
+        cfgs.append(('optimism', 'revm::optimism::handler_register::refund'))
+    for cfgn, fq in cfgs:
+        fx = ctx.facts(cfgn)
+        f = fx.fns.get(fq)
+        key = fq.split('::')[-3] + '::refund'
+        if f is None:
+            rep.undecided('R3-refund-cap', key + ':cap-last', 'refund handler not found')
+            continue
+        rep.fn(f)
+        try:
+            rs = Symx(fx, max_paths=2000, snapshot_refs=True).run(f)
+        except Budget:
+            rep.undecided('R3-refund-cap', key + ':cap-last', 'path budget', f.where())
+            continue
+        bad = None
+        capped = 0
+        for r in rs:
+            names = [e[0].split('::')[-1] for e in r.events if e[0].startswith('revm_interpreter::gas::Gas::')]
+            caps = [i for i, n_ in enumerate(names) if n_ == 'set_final_refund']
+            adds = [i for i, n_ in enumerate(names) if n_ in ('record_refund', 'set_refund')]
+            if len(caps) > 1:
+                bad = 'the cap is applied %d times on a path' % len(caps)
+            if caps:
+                capped += 1
+                if any(i > caps[0] for i in adds):
+                    bad = 'a refund is recorded after set_final_refund: it escapes the cap of spent/5 (spent/2 before London)'
+        if bad or not capped:
+            rep.violation('R3-refund-cap', key + ':cap-last', '%s: %s' % (fq.split('::')[-1], bad or 'no path applies set_final_refund'), f.where())
+        else:
+            rep.ok('R3-refund-cap', key + ':cap-last', 'every refund source precedes the cap')
+    # the driver: nothing records a refund after the refund handler ran
+    fx = ctx.facts('default')
+    f = fx.fns.get('revm::evm::Evm::transact_preverified_inner')
+    if f is None:
+        rep.undecided('R3-refund-cap', 'driver:cap-last', 'transact_preverified_inner not found')
+        return
+    rep.fn(f)
+    cfg = cfg_of(f)
+    refund_calls = [bi for bi, t in f.calls() if (t.target_fn or '').endswith('PostExecutionHandler::refund')]
+    later = []
+    for bi, t in f.calls():
+        if (t.target_fn or '').endswith(('Gas::record_refund',)) and any(cfg.reachable(rc, bi) for rc in refund_calls):
+            later.append(bi)
+    if len(refund_calls) != 1:
+        rep.violation('R3-refund-cap', 'driver:cap-last', 'the refund handler is called %d times in transact_preverified_inner' % len(refund_calls), f.where())
+    elif later:
+        rep.violation('R3-refund-cap', 'driver:cap-last', 'a refund is recorded after the refund handler capped it', f.where(later[0]))
+    else:
+        rep.ok('R3-refund-cap', 'driver:cap-last', 'refund handler once, nothing recorded afterwards')
 
 
 def check_success_or_halt(fx, rep, allv):
